@@ -55,6 +55,8 @@ def build(root, version, layout, name, wsmode, cache, history, njobs):
     shutil.rmtree(side)
     if wsmode == "collide" and layout == "v1":
         os.makedirs(os.path.join(root, "workspace", "precious"))
+    if njobs == 0 and layout == "v2":
+        shutil.rmtree(os.path.join(root, "workspace"))  # a hand-made / freshly cloned project without workspace directory
     with open(os.path.join(root, "signac_project_document.json"), "w") as f:
         json.dump({"pd": 1}, f)
     if layout == "v1":
@@ -177,6 +179,32 @@ def evaluate(item):
                     if (k.startswith("ws/") or k.startswith("workspace/")) and after.get(k) != v:
                         bad("colliding-workspace-harms-data", f"{k} changed: {v} -> {after.get(k)}")
                         break
+                # the refused migration must leave a project that is still recognised (and refused) as a legacy project ...
+                snap = canon.snapshot(root)
+                for cname, fn in (("Project", lambda: signac.Project(root)), ("get_project", lambda: signac.get_project(root)),
+                                  ("init_project", lambda: signac.init_project(root))):
+                    n += 1
+                    try:
+                        fn()
+                        got = "opened"
+                    except IncompatibleSchemaVersion:
+                        got = "IncompatibleSchemaVersion"
+                    except Exception as e:  # noqa
+                        got = type(e).__name__
+                    if got != "IncompatibleSchemaVersion" or canon.snapshot(root) != snap:
+                        bad("legacy-project-unrecognised-after-refused-migration", f"after the refused migration {cname}() gives "
+                            f"{got}; tree changed: {canon.snapshot(root) != snap}", call=cname, got=got)
+                        snap = canon.snapshot(root)
+                # ... and that can still be migrated once the collision is resolved
+                try:
+                    shutil.rmtree(os.path.join(root, "workspace"))
+                    with contextlib.redirect_stderr(io.StringIO()):
+                        apply_migrations(root)
+                    got_ids = sorted(j.id for j in signac.Project(root))
+                    if got_ids != sorted(content):
+                        bad("migration-after-resolved-collision-loses-jobs", f"{got_ids} vs {sorted(content)}")
+                except Exception as e:  # noqa
+                    bad("migration-after-resolved-collision-fails", f"{type(e).__name__}: {e}", exc=type(e).__name__)
             else:
                 if mig != "ok":
                     bad("migration-fails", f"apply_migrations on a legacy project failed: {mig}", name_class=NAMES.index(name),
